@@ -48,23 +48,25 @@ fn judge(c: &dyn BoxCase, l: &mut Local) {
             }
             // ---- decode what was encoded: equal value, stream left exactly at the end, also with siblings behind
             if l.violations.len() == before {
-                for trailing in [0usize, 1, 9] {
+                // (trailing sibling bytes, leading sibling bytes): the box need not start at stream position 0
+                for (trailing, lead) in [(0usize, 0usize), (1, 0), (9, 0), (0, 8), (9, 13)] {
                     let mut b = bytes.clone();
                     b.extend((0..trailing).map(|i| [0, 0, 0, 9, b'f', b'r', b'e', b'e', 0x11][i % 9]));
+                    let leadb: Vec<u8> = (0..lead).map(|i| [0, 0, 0, 8, b'f', b'r', b'e', b'e', 0x22, 0x33, 0x44, 0x55, 0x66][i % 13]).collect();
                     l.transitions += 1;
-                    match c.lib_decode_eq(&b) {
+                    match c.lib_decode_eq_at(&leadb, &b) {
                         Ok((eq, pos, shown)) => {
                             if !eq {
-                                l.violations.push(mk("decode_of_encoded_differs").obs(json!({"trailing": trailing, "decoded": if shown.len() > 1200 { shown[..1200].to_string() } else { shown }})));
+                                l.violations.push(mk("decode_of_encoded_differs").obs(json!({"trailing": trailing, "leading": lead, "decoded": if shown.len() > 1200 { shown[..1200].to_string() } else { shown }})));
                                 break;
                             }
                             if pos != len {
-                                l.violations.push(mk("decode_leaves_stream_off_the_box_end").obs(json!({"trailing": trailing, "position": pos, "box_len": len})));
+                                l.violations.push(mk("decode_leaves_stream_off_the_box_end").obs(json!({"trailing": trailing, "leading": lead, "position": pos, "box_len": len})));
                                 break;
                             }
                         }
                         Err(e) => {
-                            l.violations.push(mk("decode_of_encoded_failed").obs(json!({"trailing": trailing, "error": e})));
+                            l.violations.push(mk("decode_of_encoded_failed").obs(json!({"trailing": trailing, "leading": lead, "error": e})));
                             break;
                         }
                     }
